@@ -91,6 +91,7 @@ def configs(tier):
     ms = 30000 if not T else 400000
     ap = dict(kind='apply', fn='ok')
     mp = dict(kind='map', fn='tenfold', items=[1, 2, 3], chunksize=1)
+    mp2 = dict(kind='map', fn='tenfold', items=[1, 2, 3, 4], chunksize=2)
     imu = dict(kind='imap_unordered', fn='tenfold', items=[1, 2])
     im = dict(kind='imap', fn='tenfold', items=[1, 2])
     base = dict(lost_worker_timeout=3.0)
@@ -102,6 +103,8 @@ def configs(tier):
             ('quota1/apply', 2, [ap, ap, ap], dict(base, maxtasksperchild=1),
              dict(die=(), put_faults=(), max_adv=2)),
             ('quota1/map', 2, [mp], dict(base, maxtasksperchild=1),
+             dict(die=(), put_faults=(), max_adv=2)),
+            ('quota1/map-chunks-of-2', 2, [mp2], dict(base, maxtasksperchild=1),
              dict(die=(), put_faults=(), max_adv=2)),
             ('quota2/map+apply', 2, [mp, ap], dict(base, maxtasksperchild=2),
              dict(die=(), put_faults=(), max_adv=2)),
